@@ -2,7 +2,7 @@
 from . import servefam
 from .c03 import TRUSTED
 
-THEOREMS = []
+THEOREMS = ["Goag.Serve.runProg_progOf", "Goag.Serve.refRun_ok_values"]
 FACETS = [("route", [], "route")]
 RULE = "same corpus as C03 (random well-formed template sets x methods x base forms x typed path parameters x cors x single-scheme security; enumerated + template-directed + near-miss request paths, random handler/middleware/authenticator configuration); non-trivial = not answered by the plain not-found path; distinct by (package, method, path, projected observation)"
 
@@ -12,4 +12,4 @@ ASSUMPTIONS = ['path parameter types string / integer / int32 / int64 / boolean 
 
 def check(ctx):
     return servefam.check_prop(ctx, "C05", ["GoagModel.Props.C05"], THEOREMS, FACETS, TRUSTED, rule=RULE,
-                               explanation=EXPLANATION, assumptions=ASSUMPTIONS, level="translation_validation")
+                               explanation=EXPLANATION, assumptions=ASSUMPTIONS, level="proof")
